@@ -8,8 +8,9 @@ From Coq Require Import ZifyBool.
 Definition hd0 (s : list Z) : Z := match s with c :: _ => c | [] => 0 end.
 
 (* the letters are "script" in any ASCII case *)
-Definition is_script_name (ls : list Z) : bool :=
-  match to_hash (map lower ls) with Ok h => h =? html_hash_Script | _ => false end.
+Definition is_name (raw : Z) (ls : list Z) : bool :=
+  match to_hash (map lower ls) with Ok h => h =? raw | _ => false end.
+Definition is_script_name (ls : list Z) : bool := is_name html_hash_Script ls.
 
 (* what must follow the name of a tag: whitespace, '/', '>' or the end of input *)
 Definition follows_end (r : list Z) : bool := match r with [] => true | c :: _ => is_tagend c end.
@@ -43,9 +44,10 @@ Fixpoint esc_end (fuel : nat) (ins : bool) (s : list Z) : Z * bool :=
       end
   end.
 
-(* Script data: the number of bytes of s that are the content of the script element: up to the first "</script" + tag
-   end outside "<!--" sections, or as esc_end says inside one, or everything. *)
-Fixpoint script_end (fuel : nat) (s : list Z) : Z :=
+(* Raw text of the element raw (style, title, textarea, xmp, iframe, script): the number of bytes of s that are the
+   content of the element: up to the first "</name" + tag end (for script: outside "<!--" sections, or as esc_end says
+   inside one), or everything. *)
+Fixpoint raw_end (fuel : nat) (raw : Z) (s : list Z) : Z :=
   match fuel with
   | O => 0
   | S k =>
@@ -57,15 +59,17 @@ Fixpoint script_end (fuel : nat) (s : list Z) : Z :=
               let t' := skipz 1 t in
               let ls := letter_run t' in
               let r := skipz (len ls) t' in
-              if is_script_name ls && follows_end r then 0 else 2 + len ls + script_end k r
-            else if (hd0 t =? 33) && (hd0 (skipz 1 t) =? 45) && (hd0 (skipz 2 t) =? 45) then
+              if is_name raw ls && follows_end r then 0 else 2 + len ls + raw_end k raw r
+            else if (raw =? html_hash_Script) && (hd0 t =? 33) && (hd0 (skipz 1 t) =? 45) && (hd0 (skipz 2 t) =? 45) then
               let t4 := skipz 3 t in
               let (n, b) := esc_end (length t4) false t4 in
-              if b then 4 + n else 4 + n + script_end k (skipz n t4)
-            else 1 + script_end k t
-          else 1 + script_end k t
+              if b then 4 + n else 4 + n + raw_end k raw (skipz n t4)
+            else 1 + raw_end k raw t
+          else 1 + raw_end k raw t
       end
   end.
+
+Definition script_end (fuel : nat) (s : list Z) : Z := raw_end fuel html_hash_Script s.
 
 (* ---- reading helpers ------------------------------------------------------------------------------------------------ *)
 Lemma skipz_len_nil {A} (s : list A) : skipz (len s) s = [].
@@ -116,8 +120,11 @@ Proof.
   unfold firstz, len. rewrite Nat2Z.id, firstn_app, Nat.sub_diag, firstn_all. cbn. apply app_nil_r.
 Qed.
 
+Lemma is_name_hash raw ls : exists h, to_hash (map lower ls) = Ok h /\ (h =? raw) = is_name raw ls.
+Proof. destruct (to_hash_ok (map lower ls)) as [h Hh]. exists h. split; [exact Hh|]. unfold is_name. rewrite Hh. reflexivity. Qed.
+
 Lemma is_script_name_hash ls : exists h, to_hash (map lower ls) = Ok h /\ (h =? html_hash_Script) = is_script_name ls.
-Proof. destruct (to_hash_ok (map lower ls)) as [h Hh]. exists h. split; [exact Hh|]. unfold is_script_name. rewrite Hh. reflexivity. Qed.
+Proof. apply is_name_hash. Qed.
 
 Lemma length_skipz_lt {A} (s : list A) n : (length (skipz n s) <= length s)%nat.
 Proof. unfold skipz. rewrite skipn_length. lia. Qed.
@@ -191,11 +198,11 @@ Proof.
 Qed.
 
 (* ---- script data ------------------------------------------------------------------------------------------------------ *)
-Lemma script_run : forall k s z has fuel, (length s <= k)%nat -> reads z s -> (length s < fuel)%nat ->
-  loop fuel (rawtext_body no_tmpl html_hash_Script) (z, has) = Ok (mv z (script_end k s), has).
+Lemma raw_run raw : forall k s z has fuel, (length s <= k)%nat -> reads z s -> (length s < fuel)%nat ->
+  loop fuel (rawtext_body no_tmpl raw) (z, has) = Ok (mv z (raw_end k raw s), has).
 Proof.
   induction k as [|k IH]; intros s z has fuel Hk Hr Hf; (destruct fuel as [|f]; [lia|]); cbn [loop].
-  all: assert (Hnil : s = [] -> rbind (rawtext_body no_tmpl html_hash_Script (z, has)) (fun x => match x with Cont s' => loop f (rawtext_body no_tmpl html_hash_Script) s' | Brk r => Ok r end) = Ok (mv z 0, has)).
+  all: assert (Hnil : s = [] -> rbind (rawtext_body no_tmpl raw (z, has)) (fun x => match x with Cont s' => loop f (rawtext_body no_tmpl raw) s' | Brk r => Ok r end) = Ok (mv z 0, has)).
   1,3: intros ->; unfold rawtext_body; destruct (reads_end z [] Hr) as [Hp _]; change (len (@nil Z)) with 0 in Hp;
        unfold pkr; rewrite Hp; cbn [opt_res rbind Z.eqb]; rewrite tmpl_at_none; cbn [rbind];
        pose proof (reads_eof0_end z [] Hr) as He; change (len (@nil Z)) with 0 in He; rewrite mv_0 in He; rewrite He; cbn [rbind]; rewrite mv_0; reflexivity.
@@ -204,10 +211,10 @@ Proof.
     pose proof (len_nonneg t) as Ht0. assert (Hls : len (c :: t) = 1 + len t) by (rewrite len_cons; lia).
     assert (Hpk0 : pkr z 0 = Ok c) by (apply (reads_pkr z _ 0 c Hr), peekz_cons_0).
     pose proof (reads_mv _ _ 1 Hr ltac:(lia)) as Hr1. change (skipz 1 (c :: t)) with t in Hr1.
-    assert (Hone : rbind (Ok (Cont (mv z 1, has))) (fun x : lp (lx * bool) (lx * bool) => match x with Cont s' => loop f (rawtext_body no_tmpl html_hash_Script) s' | Brk r => Ok r end) =
-                   Ok (mv z (1 + script_end k t), has)).
+    assert (Hone : rbind (Ok (Cont (mv z 1, has))) (fun x : lp (lx * bool) (lx * bool) => match x with Cont s' => loop f (rawtext_body no_tmpl raw) s' | Brk r => Ok r end) =
+                   Ok (mv z (1 + raw_end k raw t), has)).
     { cbn [rbind]. rewrite (IH t (mv z 1) has f ltac:(lia) Hr1 ltac:(lia)). rewrite mv_mv. reflexivity. }
-    cbn [script_end]. unfold rawtext_body at 1. rewrite Hpk0. cbn [rbind].
+    cbn [raw_end]. unfold rawtext_body at 1. rewrite Hpk0. cbn [rbind].
     destruct (c =? 60) eqn:E60.
     2:{ rewrite tmpl_at_none. cbn [rbind]. pose proof (reads_eof0_in z _ 0 c Hr (peekz_cons_0 _ _)) as He. rewrite mv_0 in He. rewrite He. apply Hone. }
     rewrite (reads_pk0 z _ 1 Hr) by lia. change (skipz 1 (c :: t)) with t. cbn [rbind].
@@ -218,7 +225,7 @@ Proof.
       replace (skipz 2 (c :: t)) with (skipz 1 t) in Hll, Hh, Hr2, Hle by reflexivity.
       set (ls := letter_run (skipz 1 t)) in *. set (r := skipz (len ls) (skipz 1 t)) in *.
       rewrite Hll. cbn [rbind]. rewrite Hh.
-      destruct (is_script_name_hash ls) as (h & Eh & Ehs). rewrite Eh. cbn [rbind]. rewrite Ehs.
+      destruct (is_name_hash raw ls) as (h & Eh & Ehs). rewrite Eh. cbn [rbind]. rewrite Ehs.
       pose proof (len_nonneg ls) as Hl0.
       assert (Hrlen : (length r < length (c :: t))%nat).
       { assert (len r = len (c :: t) - (2 + len ls)).
@@ -227,14 +234,15 @@ Proof.
           unfold lx_len in *. cbn [mv lbuf lpos] in L2. lia. }
         unfold len in *. lia. }
       cbn [length] in Hrlen.
-      assert (Hjump : loop f (rawtext_body no_tmpl html_hash_Script) (mv z (2 + len ls), has) = Ok (mv z (2 + len ls + script_end k r), has)).
+      assert (Hjump : loop f (rawtext_body no_tmpl raw) (mv z (2 + len ls), has) = Ok (mv z (2 + len ls + raw_end k raw r), has)).
       { rewrite (IH r (mv z (2 + len ls)) has f ltac:(lia) Hr2 ltac:(lia)). rewrite mv_mv. reflexivity. }
-      destruct (is_script_name ls) eqn:Esn; cbn [andb]; [|cbn [rbind]; exact Hjump].
+      destruct (is_name raw ls) eqn:Esn; cbn [andb]; [|cbn [rbind]; exact Hjump].
       destruct (reads_follow _ _ Hr2) as (cz & Hcz & Hfol). rewrite Hcz. cbn [rbind]. rewrite Hfol.
       destruct (follows_end r); cbn [rbind]; [|exact Hjump].
       do 2 f_equal. unfold rewind, mark, mv. cbn [lbuf lpos lstart]. f_equal. lia. }
     (* "<!--" ? *)
-    change (html_hash_Script =? html_hash_Script) with true. cbn [andb].
+    destruct (raw =? html_hash_Script) eqn:Ers; cbn [andb].
+    2:{ cbn [rbind]. apply Hone. }
     destruct (hd0 t =? 33) eqn:E33; cbn [andb].
     2:{ cbn [rbind]. apply Hone. }
     assert (Ht1 : 1 <= len t) by (destruct t; [discriminate|rewrite len_cons; pose proof (len_nonneg t); lia]).
@@ -271,12 +279,48 @@ Proof.
     rewrite mv_mv. rewrite (IH (skipz n t4) (mv z (4 + n)) has f ltac:(lia) Hr5 ltac:(lia)). rewrite mv_mv. first [reflexivity|do 2 f_equal; lia].
 Qed.
 
-(* ---- the theorem ------------------------------------------------------------------------------------------------------ *)
-Definition script_len (s : list Z) : Z := script_end (length s) s.
 
-(* After the start tag of a script element (no template delimiters) the content is returned as ONE Text token that ends
-   exactly where the double-escape rules say: script_len of the remaining input.  (script_len = 0: the content is
-   empty and the call returns what follows.) *)
+Lemma script_run : forall k s z has fuel, (length s <= k)%nat -> reads z s -> (length s < fuel)%nat ->
+  loop fuel (rawtext_body no_tmpl html_hash_Script) (z, has) = Ok (mv z (script_end k s), has).
+Proof. exact (raw_run html_hash_Script). Qed.
+
+(* ---- the theorem ------------------------------------------------------------------------------------------------------ *)
+Definition raw_len (raw : Z) (s : list Z) : Z := raw_end (length s) raw s.
+Definition script_len (s : list Z) : Z := raw_len html_hash_Script s.
+
+(* After the start tag of a raw-text element other than plaintext (no template delimiters) the content is returned as
+   ONE Text token that ends exactly where the rules say: raw_len of the remaining input (for script: the double-escape
+   rules).  (raw_len = 0: the content is empty and the call returns what follows.) *)
+Lemma html_raw_end_proof : forall d l ty tk l', html_inv d l -> intag l = false -> rawtag l <> 0 ->
+  rawtag l <> html_hash_Plaintext -> next no_tmpl l = Ok (ty, tk, l') ->
+  let e := lpos (lz l) + raw_len (rawtag l) (skipz (lpos (lz l)) d) in
+  lpos (lz l) <= e <= len d /\
+  (lpos (lz l) < e ->
+     ty = TextT /\ tk = Some (mkSl (lpos (lz l)) (e - lpos (lz l))) /\ ltext l' = tk /\
+     rawtag l' = 0 /\ intag l' = false /\ lpos (lz l') = e).
+Proof.
+  intros d l ty tk l' Hi Hit Hraw Hnpl Hn e. pose proof Hi as (Hl & Hlen & _). pose proof Hl as [Hw _].
+  pose proof (lwf_clean l Hl Hit) as Hcl.
+  assert (Hr : reads (lz l) (skipz (lpos (lz l)) d)) by (split; [exact Hw|apply rem_inv; exact Hi]).
+  set (s := skipz (lpos (lz l)) d) in *. set (raw := rawtag l) in *.
+  assert (Hloop : loop (fuel_of (lz l)) (rawtext_body no_tmpl raw) (lz l, false) = Ok (mv (lz l) (raw_len raw s), false)).
+  { apply raw_run; [apply le_n|exact Hr|].
+    pose proof (fuel_of_enough (lz l) s (len s) Hr ltac:(lia)) as Hfe. unfold len in Hfe at 1. rewrite Nat2Z.id in Hfe. exact Hfe. }
+  destruct (safe_inv _ _ (rawtext_loop_spec no_tmpl raw (lz l) false cfg_ok_no_tmpl Hw)) as (r & Er & Ha).
+  rewrite Hloop in Er. injection Er as <-. cbn [fst] in Ha. destruct Ha as (_ & _ & A3). cbn [mv lpos] in A3. rewrite Hlen in A3.
+  split; [unfold e; exact A3|]. intros Hlt.
+  unfold next in Hn. cbn [lz rawtag intag lerr ltext lattr lhas] in Hn. rewrite Hit in Hn. fold raw in Hn.
+  replace (negb (raw =? 0)) with true in Hn by (symmetry; apply negb_true_iff, Z.eqb_neq; exact Hraw). cbn [negb andb] in Hn.
+  unfold shift_rawtext in Hn. replace (raw =? html_hash_Plaintext) with false in Hn by (symmetry; apply Z.eqb_neq; exact Hnpl).
+  rewrite Hloop in Hn. cbn [rbind fst snd] in Hn.
+  assert (Hw2 : lx_wf (mv (lz l) (raw_len raw s))).
+  { destruct (rem_mv (lz l) (raw_len raw s) Hw) as [_ Hw2]; [rewrite len_rem by exact Hw; unfold e in *; lia|exact Hw2]. }
+  rewrite shiftv_spec in Hn by exact Hw2. cbn [rbind fst snd sn mv lstart lpos] in Hn.
+  replace (0 <? lpos (lz l) + raw_len raw s - lstart (lz l)) with true in Hn by (symmetry; apply Z.ltb_lt; unfold e in Hlt; lia).
+  injection Hn as <- <- <-. cbn [ltext rawtag intag lz skip lpos mv]. rewrite Hcl. unfold e.
+  replace (lpos (lz l) + raw_len raw s - lpos (lz l)) with (raw_len raw s) by lia. tauto.
+Qed.
+
 Lemma html_script_end_proof : forall d l ty tk l', html_inv d l -> intag l = false -> rawtag l = html_hash_Script ->
   next no_tmpl l = Ok (ty, tk, l') ->
   let e := lpos (lz l) + script_len (skipz (lpos (lz l)) d) in
@@ -285,26 +329,8 @@ Lemma html_script_end_proof : forall d l ty tk l', html_inv d l -> intag l = fal
      ty = TextT /\ tk = Some (mkSl (lpos (lz l)) (e - lpos (lz l))) /\ ltext l' = tk /\
      rawtag l' = 0 /\ intag l' = false /\ lpos (lz l') = e).
 Proof.
-  intros d l ty tk l' Hi Hit Hraw Hn e. pose proof Hi as (Hl & Hlen & _). pose proof Hl as [Hw _].
-  pose proof (lwf_clean l Hl Hit) as Hcl.
-  assert (Hr : reads (lz l) (skipz (lpos (lz l)) d)) by (split; [exact Hw|apply rem_inv; exact Hi]).
-  set (s := skipz (lpos (lz l)) d) in *.
-  assert (Hloop : loop (fuel_of (lz l)) (rawtext_body no_tmpl html_hash_Script) (lz l, false) = Ok (mv (lz l) (script_len s), false)).
-  { apply script_run; [apply le_n|exact Hr|].
-    pose proof (fuel_of_enough (lz l) s (len s) Hr ltac:(lia)) as Hfe. unfold len in Hfe at 1. rewrite Nat2Z.id in Hfe. exact Hfe. }
-  destruct (safe_inv _ _ (rawtext_loop_spec no_tmpl html_hash_Script (lz l) false cfg_ok_no_tmpl Hw)) as (r & Er & Ha).
-  rewrite Hloop in Er. injection Er as <-. cbn [fst] in Ha. destruct Ha as (_ & _ & A3). cbn [mv lpos] in A3. rewrite Hlen in A3.
-  split; [unfold e; exact A3|]. intros Hlt.
-  unfold next in Hn. cbn [lz rawtag intag lerr ltext lattr lhas] in Hn. rewrite Hit, Hraw in Hn.
-  change (negb (html_hash_Script =? 0)) with true in Hn. cbn [negb andb] in Hn.
-  unfold shift_rawtext in Hn. change (html_hash_Script =? html_hash_Plaintext) with false in Hn.
-  rewrite Hloop in Hn. cbn [rbind fst snd] in Hn.
-  assert (Hw2 : lx_wf (mv (lz l) (script_len s))).
-  { destruct (rem_mv (lz l) (script_len s) Hw) as [_ Hw2]; [rewrite len_rem by exact Hw; unfold e in *; lia|exact Hw2]. }
-  rewrite shiftv_spec in Hn by exact Hw2. cbn [rbind fst snd sn mv lstart lpos] in Hn.
-  replace (0 <? lpos (lz l) + script_len s - lstart (lz l)) with true in Hn by (symmetry; apply Z.ltb_lt; unfold e in Hlt; lia).
-  injection Hn as <- <- <-. cbn [ltext rawtag intag lz skip lpos mv]. rewrite Hcl. unfold e.
-  replace (lpos (lz l) + script_len s - lpos (lz l)) with (script_len s) by lia. tauto.
+  intros d l ty tk l' Hi Hit Hraw Hn. unfold script_len. rewrite <- Hraw.
+  apply html_raw_end_proof; try assumption; rewrite Hraw; discriminate.
 Qed.
 
 (* non-vacuity: the content of <script><!--<script></script>--></script>x is "<!--<script></script>-->" (24 bytes), and of
